@@ -2,7 +2,7 @@
    Statements only; proofs in Proofs/FrameP.v, Proofs/CloseCodecP.v, Proofs/WriterP.v. *)
 From Coq Require Import List NArith ZArith Lia.
 From WS Require Import Base.Words Gen.Consts Gen.CloseCode Model.Mask Model.Frame Model.Proto Model.CloseCodec Model.Writer Model.RefDecoder
-  Proofs.FrameP Proofs.CloseCodecP Proofs.WriterP Proofs.RoundTripP.
+  Proofs.FrameP Proofs.CloseCodecP Proofs.WriterP Proofs.RoundTripP Gen.FrameCode Proofs.GenTieP.
 Import ListNotations.
 Open Scope N_scope.
 
@@ -71,3 +71,18 @@ Proof.
     + apply B; reflexivity.
   - vm_compute. split; reflexivity.
 Qed.
+
+(* ---- tie to the source by translation (Gen/FrameCode.v is regenerated from frame.go on every run) ---- *)
+
+(* the 7-bit length field of the model's header is the value the FIRST switch of writeFrameHeader or's into the second
+   byte, and the extended length has the number of bytes its SECOND switch writes: a changed boundary, comparison or
+   constant in either switch breaks these two theorems *)
+Theorem C02_length_field_is_source : forall h,
+  enc_b1 h = bit (h_masked h) 128 + Z.to_N (gen_len_code (Z.of_N (h_plen h))).
+Proof. exact enc_b1_is_source. Qed.
+Print Assumptions C02_length_field_is_source.
+
+Theorem C02_length_bytes_is_source : forall h,
+  length (enc_ext h) = Z.to_nat (gen_len_ext (Z.of_N (h_plen h))).
+Proof. exact enc_ext_is_source. Qed.
+Print Assumptions C02_length_bytes_is_source.
